@@ -478,10 +478,12 @@ def step (s : FS) (op : Op) (c : Choice) : FS × Reply :=
       else if cookie % DIRENTSZ ≠ 0 then (s, .fail .err)
       else
         let (eof, es) := readdirplusPage ino.slots cookie dircount maxcount
+        -- attributes and handle only for entries whose inode can be locked in ascending order
+        -- while the directory is held: the directory itself and larger numbers
         (s, .listing eof (es.map fun (sl, ck) =>
           let ch := s.get sl.inum
           { fileid := sl.inum, name := sl.name, cookie := ck,
-            plus := some (attrOf sl.inum ch, mkFh sl.inum ch.gen) }))
+            plus := if sl.inum ≥ i then some (attrOf sl.inum ch, mkFh sl.inum ch.gen) else none }))
   | .fsinfo fh =>
     match resolve s fh with
     | none => (s, .fail .stale)
